@@ -25,7 +25,12 @@ Inductive cbody :=
 | CScatter (len conc gomax : Z) (calls : option (list (Z * Z))) (results : list (Z * Z))
     (* util.Scatter through its public API: the (offset, entries) of every work() call sorted by
        offset (None = Scatter returned an error) and the (Offset, Extent) pairs it returned, sorted *)
-| CImmediate (len : N) (r : reply) (calls : list (list N)) (success : bool).
+| CImmediate (len : N) (r : reply) (calls : list (list N)) (success : bool)
+| CSubmitMon (mon : N) (inp : input) (order : list nat) (obs : sub_obs)
+    (* a submission without caller's deadline on a service whose client monitor takes mon ms (fake
+       time) in every ClientOperation call *)
+| CImmediateN (nd : node) (len : N) (calls : list (list N)) (success : bool).
+    (* the immediate submitter with a node scripted per request (by the items a request carries) *)
 
 Record case := { c_id : N; c_body : cbody }.
 
@@ -100,6 +105,12 @@ Definition agree (c : case) : bool :=
       && list_eqb zpair_eqb results (match calls with Some l => l | None => [] end)
   | CImmediate len r calls success =>
       let '(cs, ok) := immediate len r in
+      bool_eqb ok success && forall2b (fun c oc => list_eqb N.eqb oc (nseq (fst c) (snd c))) cs calls
+  | CSubmitMon m inp order obs =>
+      (* run_mon m inp order = run_dl None (slow_by m inp) order *)
+      agree_submit (slow_by m inp) None order obs
+  | CImmediateN nd len calls success =>
+      let '(cs, ok) := immediate_node nd len in
       bool_eqb ok success && forall2b (fun c oc => list_eqb N.eqb oc (nseq (fst c) (snd c))) cs calls
   end.
 
@@ -254,6 +265,20 @@ Definition P_b (c : case) : bool :=
       if len =? 0 then is_nil calls && negb success
       else forall2b (fun _ oc => list_eqb N.eqb oc (nseq 0 len)) [tt] calls
            && bool_eqb success (match r with RAccept => true | RError _ => false end)
+  | CSubmitMon m inp _ obs =>
+      (* vouch's own bookkeeping (the client monitor) takes m ms per node answer: the property is met
+         when the report is right for answers counted when the bookkeeping is done, or for answers
+         counted as they arrive *)
+      P_submit (slow_by m inp) None obs || P_submit inp None obs
+  | CImmediateN nd len calls success =>
+      (* offered in full: the requests, in the order received, are non-empty and carry the payload
+         exactly once; reported successful exactly when the node accepted all of it (the immediate
+         submitter tolerates no rejection) *)
+      if len =? 0 then is_nil calls && negb success
+      else list_eqb N.eqb (concat calls) (nseq 0 len)
+           && forallb (fun oc => negb (is_nil oc)) calls
+           && bool_eqb success
+                (forallb (fun oc => match obs_call_beh nd oc with BReply _ RAccept => true | _ => false end) calls)
   end.
 
 Definition mismatches (cs : list case) : list N := failing_ids c_id agree cs.
